@@ -9,7 +9,7 @@ trap 'git -C /repo worktree remove --force $WT; rm -rf /tmp/harmless_out_$$' EXI
 git -C $WT apply /verif/selftest/harmless.diff
 cd /verif
 rc=0
-for p in ${@:-C04 C07 C08 C09 C10 C12 C13 C15 C18}; do
+for p in ${@:-C04 C07 C08 C09 C10 C12 C13 C15 C16 C18}; do
   out=$(VERIF_OUT=/tmp/harmless_out_$$ HL7APY_REPO=$WT PYTHONPATH=$WT python3-vt check.py --property $p 2>&1) || rc=1
   echo "$out" | grep -E "^(SUMMARY|VIOLATION|UNDECIDED)" | cut -c1-220
 done
